@@ -279,7 +279,9 @@ def run_case(case):
         if not viol and case["carver"] != "multiclass":
             from . import c17
 
-            evs = [e for e in c17.enabled(carver, fit["X"], case["kind"]) if e[0] == "group"]
+            allevs = c17.enabled(carver, fit["X"], case["kind"])
+            # the missing-value modality renamed into a category ('replace' with nan) when that edit is available, else a 'group' edit
+            evs = [e for e in allevs if e[0] == "replace" and e[1] == "NaN"] or [e for e in allevs if e[0] == "group"]
             if evs:
                 try:
                     c17.apply_edit(carver, evs[0])
